@@ -344,11 +344,9 @@ BD_Shape<T>::BD_Shape(const Octagonal_Shape<U>& os,
 template <typename T>
 inline BD_Shape<T>&
 BD_Shape<T>::operator=(const BD_Shape& y) {
-  dbm = y.dbm;
-  status = y.status;
-  if (y.marked_shortest_path_reduced()) {
-    redundancy_dbm = y.redundancy_dbm;
-  }
+  // Copy and swap: if the copy throws, `*this' is left untouched.
+  BD_Shape tmp(y);
+  m_swap(tmp);
   return *this;
 }
 
